@@ -40,7 +40,7 @@ func main() {
 			return
 		}
 	}
-	n := 80
+	n := 160
 	if a.Thorough() {
 		n = 1500
 	}
